@@ -75,6 +75,8 @@ def gen_plan(rng, tier, run):
     ps = [s for s in some["sections"] if s["kind"] == "src" and s["id"] == "PS"]
     plan = {"files": files, "junk": junk, "subdirs": subdirs,
             # process model: every invocation in a fresh module set (= its own process) or all in one process
+            # how paths are spelled on the command line: absolute, relative to the cwd, with a trailing slash
+            "path_style": rng.choice(["abs", "abs", "abs", "rel", "slash"]),
             "fresh": rng.random() < 0.5,
             "opts": common.gen_selection(rng),
             "flags": [x for x in ("-r", "-P") if rng.random() < 0.2],
@@ -154,6 +156,10 @@ def execute(plan):
         bump("subdir")
     with World() as w:
         w.fresh_per_run = bool(plan.get("fresh"))
+        w.path_style = plan.get("path_style", "abs")
+        w.rel_dot = bool(plan.get("fresh"))
+        if w.path_style != "abs":
+            bump("path_style:" + w.path_style)
         bump("process_model:fresh" if w.fresh_per_run else "process_model:shared")
         common.put_store(w, "B", plan["files"])
         w.put("X/exclude.txt", "\n".join(plan["exclude"]).encode())
